@@ -13,7 +13,13 @@ S->I: the same specification instantiated with the code's real constants (128 / 
       mapping cache + permuted, aliased tags) through Agent.Map / Agent.ApplyMetric / the Add* API /
       Shard.flushBuckets / Agent.goFlushIteration / ShutdownFlusher / FlushAllData; CurrentTime,
       SendTime, channel and the rows of SuperQueue are compared with the specification after
-      every step, buckets are read from BucketsToPreprocess."""
+      every step, buckets are read from BucketsToPreprocess.
+The constants of the instance (ring length, future slots, the literal of the gap formula, shard of
+__timing_errors) are READ FROM THE CODE first and the export configurations are generated with them.  The export
+runs carry no INVARIANTS: a behaviour whose final state breaks a property-level invariant in the model is tagged
+(BAD), replayed first, and the driver observes the property on the real code alone (row stamped later than its
+bucket, timestamp not a multiple of the resolution, event handed to sending twice or never): that is the witness
+of a VIOLATION.  A changed constant with a model that holds and a conforming replay is reported as OK with a note."""
 import json
 import os
 import random
@@ -35,15 +41,58 @@ def spec_cfg(res):
     raise Infra("specification did not print its instance")
 
 
-def run_replay(ctx, cfg, behs, name, timeout=1500):
-    if cfg["qlen"] != REAL["superQueueLen"] or cfg["future"] != REAL["superQueueFutureSlots"] \
-            or cfg["spread"] != REAL["spread"] or cfg["timing_shard"] != REAL["timingShard"]:
-        raise Infra("%s: behaviours were not generated with the real constants: %s" % (name, cfg))
+def code_consts(ctx):
+    """Constants of the code the specification is instantiated with (TestVerifC08Consts)."""
+    res, out, rc = ctx.go_test("internal/agent", "TestVerifC08Consts", timeout=600)
+    res = ctx.need_result(res, out, rc, "TestVerifC08Consts")
+    c = res.get("consts", {})
+    if not all(k in c for k in REAL) or not c.get("gapLinear"):
+        raise Infra("cannot instantiate the specification from the code: constants %s (the gap must be CurrentTime - SendTime - c)" % c)
+    if not 1000 < c["agentWindowMs"] < 2000:
+        raise Infra("AgentWindow %s ms is outside (1 s, 2 s): the clock abstraction (whole second + 'half') does not apply" % c["agentWindowMs"])
+    if c["superQueueLen"] < 16 or c["superQueueFutureSlots"] < 0 or c["superQueueFutureSlots"] >= 60:
+        raise Infra("cannot instantiate the specification with %s" % c)
+    return c
+
+
+def inst_cfg(ctx, cfg, consts):
+    """The export configuration `cfg` with the constants read from the code."""
+    with open("%s/specs/%s" % (ctx.root, cfg)) as f:
+        text = f.read()
+    for k, v in (("QLen", consts["superQueueLen"]), ("FutureSlots", consts["superQueueFutureSlots"]),
+                 ("Spread", consts["spread"]), ("TimingShard", consts["timingShard"])):
+        text, n = re.subn(r"(?m)^  %s = -?\d+$" % k, "  %s = %d" % (k, v), text)
+        if n != 1:
+            raise Infra("%s: constant %s not found" % (cfg, k))
+    name = "AgentQueue_inst_" + cfg[len("AgentQueue_"):]
+    return name, {name: text}
+
+
+def model_bad(res):
+    """Behaviours whose final state breaks a property-level invariant in the model (BAD lines)."""
+    out = []
+    for l in res.printed:
+        m = re.match(r'^<<"BAD", (".*")>>$', l)
+        if m:
+            out.append(json.loads(json.loads(m.group(1))))
+    return out
+
+
+def run_replay(ctx, cfg, behs, name, consts, flagged=(), timeout=1500):
+    """Replay behaviours on the real code.  `flagged`: behaviours the model (instantiated with the code's constants)
+    says break the property; they are replayed first and must be reproduced on the real code."""
+    if cfg["qlen"] != consts["superQueueLen"] or cfg["future"] != consts["superQueueFutureSlots"] \
+            or cfg["spread"] != consts["spread"] or cfg["timing_shard"] != consts["timingShard"]:
+        raise Infra("%s: behaviours were not generated with the code's constants: %s vs %s" % (name, cfg, consts))
+    fl = [x["beh"] for x in flagged][:200]
+    seen = set(json.dumps(b, sort_keys=True) for b in fl)
+    behs = fl + [b for b in behs if json.dumps(b, sort_keys=True) not in seen]
+    nviol0 = len(ctx.violations)
     res, out, rc = ctx.go_test("internal/agent", "TestVerifC08Replay", inp=[cfg] + behs, timeout=timeout)
     res = ctx.need_result(res, out, rc, name)
     c = res.get("consts", {})
-    if any(c.get(k) != v for k, v in REAL.items()):
-        raise Infra("code constants changed (%s, expected %s): specs/AgentQueue_*.cfg must be re-instantiated" % (c, REAL))
+    if any(c.get(k) != consts[k] for k in REAL):
+        raise Infra("constants of the code changed during the run (%s vs %s)" % (c, consts))
     cnt = res.get("counters", {})
     if cnt.get("driver_errors"):
         ctx.save("driver_notes_%s.txt" % name, "\n".join(res.get("notes", [])) + "\n" + out[-5000:])
@@ -63,6 +112,11 @@ def run_replay(ctx, cfg, behs, name, timeout=1500):
         ctx.ev.sample("%s: %s" % (name, s))
     if n == 0 and res["replayed"] != len([b for b in behs if b]):
         raise Infra("%s: %d of %d behaviours replayed" % (name, res["replayed"], len(behs)))
+    if flagged and len(ctx.violations) == nviol0:
+        names = sorted(set(x for f in flagged for x in f["broken"]))
+        p = ctx.save("model_cex_%s.json" % name, flagged[0])
+        raise Infra("%s: the specification instantiated with the code's constants %s breaks %s in %d behaviours, but the "
+                    "real code did not show it (see %s)" % (name, consts, names, len(flagged), p))
     return res
 
 
@@ -73,7 +127,7 @@ def replay(ctx, path):
     if "cfg" not in w or "beh" not in w:
         raise Infra("not a C08 witness: %s" % path)
     print("replaying behaviour of %d steps; it diverged at step %s: %s" % (len(w["beh"]), w.get("step"), w.get("note")))
-    run_replay(ctx, w["cfg"], [w["beh"]], "replayed_witness")
+    run_replay(ctx, w["cfg"], [w["beh"]], "replayed_witness", code_consts(ctx))
 
 
 def last_per_trace(behs, rnd, keep=1):
@@ -134,37 +188,75 @@ def run(ctx):
             raise Infra("vacuity check failed: wrong design %s gives %s, expected %s" % (variant or cfg, r.violated, expect))
         broken[variant or "resolution_too_coarse_for_ring"] = r.violated
     ctx.ev.set("wrong_designs_violate", broken)
-    # 3. behaviours with the real constants for the driver
-    beh = ctx.tlc("AgentQueueMC", "AgentQueue_beh_big.cfg" if th else "AgentQueue_beh.cfg", timeout=2400, heap=HEAP,
-                  name="behaviour export, real constants, boundary alphabet",
-                  constants={"QLen": 128, "FutureSlots": 3, "Spread": 120, "NShards": 2, "T0": 86400057,
-                             "shape": "start lag x tick x flush|event x event x flush|consume|stop+FlushAllData"})
-    ctx.require_model_ok(beh, "behaviour export")
-    full = list(beh.behaviours)   # only complete behaviours are printed (ExportBeh)
-    rnd.shuffle(full)
-    # every shape gets its share: group by the sequence of actions, take round-robin
-    shapes = {}
-    for b in full:
-        shapes.setdefault(" ".join(s["a"] for s in b), []).append(b)
-    limit = 25000 if th else 3000
-    take = []
-    while len(take) < limit and any(shapes.values()):
-        for k in sorted(shapes):
-            if shapes[k] and len(take) < limit:
-                take.append(shapes[k].pop())
+    # 3. the constants of the code; the export configurations are instantiated with them
+    consts = code_consts(ctx)
+    changed = {k: [consts[k], v] for k, v in REAL.items() if consts[k] != v}
+    ctx.ev.set("code_constants", {k: consts[k] for k in REAL})
+    if changed:
+        ctx.log("constants of the code differ from the instance the small-ring runs mirror: %s (code, expected); "
+                "the real-constants configurations are re-instantiated with the code's values" % changed)
+        ctx.ev.set("code_constants_changed", changed)
+    cons = {"QLen": consts["superQueueLen"], "FutureSlots": consts["superQueueFutureSlots"], "Spread": consts["spread"], "NShards": 2}
+
+    def export(cfg, name, extra, simulate=None):
+        inst, files = inst_cfg(ctx, cfg, consts)
+        r = ctx.tlc("AgentQueueMC", inst, timeout=2400, heap=HEAP, files=files, simulate=simulate, name=name,
+                    constants=dict(cons, **extra))
+        ctx.require_model_ok(r, name)   # no INVARIANTS in these configurations: only evaluation errors end up here
+        bad = model_bad(r)
+        if bad:
+            ctx.log("%s: %d behaviours end in a state that breaks %s in the model with the code's constants" % (
+                name, len(bad), sorted(set(x for f in bad for x in f["broken"]))))
+        return r, bad
+
+    def by_shape(full, limit):
+        # every shape gets its share: group by the sequence of actions, take round-robin
+        rnd.shuffle(full)
+        shapes = {}
+        for b in full:
+            shapes.setdefault(" ".join(s["a"] for s in b), []).append(b)
+        take = []
+        while len(take) < limit and any(shapes.values()):
+            for k in sorted(shapes):
+                if shapes[k] and len(take) < limit:
+                    take.append(shapes[k].pop())
+        return take
+
+    model_broken = {}
+    # 3a. directed family: SendTime lagging 5..9 s (around the discard threshold), channel occupied or not, 60-second rows
+    #     stamped at the next minute boundary (CurrentTime + future slots) with the last spread indexes
+    lag, lag_bad = export("AgentQueue_lag.cfg", "directed family: lag 5..9 x minute boundary x last spread indexes",
+                          {"T0": "R0 + 60 - FutureSlots", "Lags0": [5, 6, 7, 8, 9], "SpreadOf": "{0, r-3, r-2, r-1}"})
+    take = by_shape(list(lag.behaviours), 12000 if th else 2500)
+    if not take:
+        raise Infra("no behaviours exported (directed family)")
+    ctx.ev.set("directed_lag_behaviours_exported", len(lag.behaviours))
+    model_broken["directed_lag_family"] = len(lag_bad)
+    run_replay(ctx, spec_cfg(lag), take, "directed_lag_family", consts, flagged=lag_bad)
+    # 3b. boundary alphabet
+    beh, beh_bad = export("AgentQueue_beh_big.cfg" if th else "AgentQueue_beh.cfg", "behaviour export, real constants, boundary alphabet",
+                          {"T0": "R0 + 60 - FutureSlots",
+                           "shape": "start lag x tick x flush|event x event x flush|consume|stop+FlushAllData"})
+    take = by_shape(list(beh.behaviours), 25000 if th else 3000)   # only complete behaviours are printed (ExportBeh)
     if not take:
         raise Infra("no behaviours exported")
-    ctx.ev.set("boundary_behaviours_exported", len(full))
-    run_replay(ctx, spec_cfg(beh), take, "tlc_behaviours_boundary")
+    ctx.ev.set("boundary_behaviours_exported", len(beh.behaviours))
+    model_broken["tlc_behaviours_boundary"] = len(beh_bad)
+    run_replay(ctx, spec_cfg(beh), take, "tlc_behaviours_boundary", consts, flagged=beh_bad)
+    # 3c. long simulated behaviours
     nsim = 250 if th else 24
-    sim = ctx.tlc("AgentQueueMC", "AgentQueue_sim.cfg", simulate=(nsim, 46), timeout=2400, heap=HEAP,
-                  name="simulated long behaviours, real constants",
-                  constants={"QLen": 128, "FutureSlots": 3, "Spread": 120, "NShards": 2, "MaxOps": 45, "MaxEvents": 30})
-    ctx.require_model_ok(sim, "simulation export")
+    sim, sim_bad = export("AgentQueue_sim.cfg", "simulated long behaviours, real constants", {"MaxOps": 45, "MaxEvents": 30},
+                          simulate=(nsim, 46))
     simb = last_per_trace(sim.behaviours, rnd)
     if not simb:
         raise Infra("simulation exported nothing")
-    run_replay(ctx, spec_cfg(sim), simb, "simulated_long")
+    model_broken["simulated_long"] = len(sim_bad)
+    run_replay(ctx, spec_cfg(sim), simb, "simulated_long", consts, flagged=sim_bad)
+    ctx.ev.set("model_behaviours_breaking_the_property", model_broken)
+    if changed:
+        ctx.ev.assume("constants read from the code differ from the documented instance (%s: code, expected); the real-constants "
+                      "specification was re-instantiated with them, its explored behaviours keep the property and the real code "
+                      "conforms to it; the small-ring exhaustive runs mirror the documented instance only" % changed)
     ctx.ev.assume("single-threaded driver: one public call at a time (every call of the real code holds the shard "
                   "mutex for its whole critical section; FlushAllData runs after the flusher stopped, as in production)")
     ctx.ev.assume("rows added by Agent.addBuiltins (queue sizes, cache statistics of the previous second) are kept out of the "
